@@ -146,3 +146,31 @@ def conf_full(seed, knobs=None):
 
 
 PROFILES["conf_full"] = conf_full
+
+ALLCMDS = ["incr", "decr", "set_np", "restart", "reload", "kill", "signal", "stop", "start", "status", "list",
+           "numprocesses"]
+PROFILES.update({
+    "count": {"singleton": True, "cmds": ["incr", "decr", "set_np", "restart", "reload", "kill"], "steps": 30},
+    "stop": {"cmds": ["stop", "kill", "restart", "start", "incr", "decr", "set_np", "status"], "stubborn": 0.5,
+             "kcall_deaths": 0.6, "hooks": ["after_spawn", "before_stop", "after_stop"], "norespawn": True},
+    "term": {"stop_children": True, "stop_signal": True, "fork": 0.15, "stubborn": 0.5,
+             "cmds": ["stop", "kill", "decr", "restart", "reload", "signal"], "instant": 0.2},
+    "acct": {"watchers": 3, "hooks": ["before_spawn", "after_spawn", "before_start", "after_start"], "faults": 0.3,
+             "kcall_deaths": 0.6, "cmds": ["start", "stop", "incr", "decr", "kill", "restart", "list", "numprocesses"],
+             "norespawn": True},
+    "overlap": {"cmds": ["kill", "kill", "signal", "stop", "restart", "reload", "start", "incr", "status", "list",
+                         "numprocesses"], "stubborn": 0.6, "partial": 0.5, "steps": 20},
+    "events": {"cmds": ["incr", "decr", "set_np", "reload", "kill", "stop", "start", "restart"], "kcall_deaths": 0.5,
+               "steps": 30},
+    "excl": {"cmds": ["start", "stop", "restart", "reload", "incr", "decr", "set_np", "kill"], "partial": 0.7,
+             "hooks": ["before_start", "after_start", "before_spawn"], "faults": 0.2, "singleton": True,
+             "deaths": False, "steps": 20},
+    "hooks": {"hooks": HOOK_NAMES[:8], "cmds": ["start", "stop", "restart", "signal", "kill", "reload"],
+              "stubborn": 0.5, "steps": 16},
+    "signals": {"watchers": 3, "stop_children": True, "fork": 0.25, "cmds": ["signal", "signal", "kill", "stop", "incr"],
+                "steps": 18},
+    "boot": {"watchers": 4, "autostart": True, "cmds": ["restart", "start", "stop"], "steps": 8, "kcall_deaths": 0.6,
+             "check_delays": [1.0, 2.0]},
+    "shutdown": {"dsig": 0.5, "cmds": ["quit", "stop", "restart", "incr", "kill", "status"], "stubborn": 0.4,
+                 "partial": 0.4, "steps": 14, "xprobe": False},
+})
